@@ -21,7 +21,8 @@ VARIANTS = [
     "token profile changed after construction",
     "server closes right after reply/pong; send-error fault for early closers",
     "known-but-unsupported version names",
-    "wall clock stepped backwards/forwards between two readings"
+    "wall clock stepped backwards/forwards between two readings",
+    "allowed versions naming one version more than once (same value, two names, name and number)"
 ]
 RUNS = {'quick': 6000, 'thorough': 250000}
 WALL_CAP = {'quick': 200, 'thorough': 3300}
@@ -49,6 +50,25 @@ def scenario_for(seed, index, tier):
         sc['wall_jumps'] = [[rng.randrange(3),
                              rng.choice([-5000000, -3600 * 10**6, -20000,
                                          5000000])]]
+    if isinstance(sc['allowed'], list) and rng.random() < 0.25:
+        # the same version given more than once: again as it is, by another
+        # of its names, or by name and by number - still the same SET of
+        # versions (a singleton stays a singleton: no status query)
+        sup_all, names, known, idx = tables()
+        try:
+            resolve(sc['allowed'], names, sup_all)
+        except ValueError:
+            return sc
+        byproto = {}
+        for n, p in names.items():
+            byproto.setdefault(p, []).append(n)
+        for _ in range(rng.choice([1, 1, 2])):
+            v = rng.choice(sc['allowed'])
+            p = names[v] if isinstance(v, str) else v
+            alt = [v, p] + sorted(byproto.get(p, []))
+            sc['allowed'].insert(rng.randrange(len(sc['allowed']) + 1),
+                                 rng.choice(alt))
+        sc['allowed_has_duplicates'] = True
     return sc
 
 
